@@ -5,6 +5,7 @@ package props
 // row per construct) equals the rows of the schema; two runs give the same relations.
 
 import (
+	"regexp"
 	"context"
 	"encoding/json"
 	"fmt"
@@ -93,6 +94,20 @@ func (c17) Cases(tier string, emit func(string, interface{})) {
 		}
 		a := &gen.App{Name: []string{"A"}, Types: []*gen.TypeDecl{{Kind: "type", Name: "T", Fields: []*gen.Field{{Name: "f", T: gen.TypeExpr{Prim: "int"}}}}}, Eps: []*gen.Endpoint{{Kind: "simple", Name: "Ep", Stmts: ss}}}
 		emit("payload", c09Case{Spec: &gen.Spec{Apps: []*gen.App{a, {Name: []string{"Other"}, Types: []*gen.TypeDecl{{Kind: "type", Name: "U", Fields: []*gen.Field{{Name: "z", T: gen.TypeExpr{Prim: "int"}}}}}}}}, Lab: fmt.Sprintf("payload-%d", i)})
+	}
+	// the same payload texts in three applications that each declare their own T (a result that
+	// depends on the enclosing application must not be shared between applications)
+	for i := 0; i < len(ps); i += 12 {
+		mk := func(name ...string) *gen.App {
+			var ss []*gen.Stmt
+			for j := i; j < i+12 && j < len(ps); j++ {
+				ss = append(ss, &gen.Stmt{Kind: "ret", Text: ps[j]})
+			}
+			return &gen.App{Name: name, Types: []*gen.TypeDecl{{Kind: "type", Name: "T", Fields: []*gen.Field{{Name: "f", T: gen.TypeExpr{Prim: "int"}}}}},
+				Eps: []*gen.Endpoint{{Kind: "simple", Name: "Ep", Stmts: ss}, {Kind: "simple", Name: "Ep2", Stmts: []*gen.Stmt{{Kind: "if", Text: "c", Kids: ss[:2]}}}}}
+		}
+		other := &gen.App{Name: []string{"Other"}, Types: []*gen.TypeDecl{{Kind: "type", Name: "U", Fields: []*gen.Field{{Name: "z", T: gen.TypeExpr{Prim: "int"}}}}}}
+		emit("payload3", c09Case{Spec: &gen.Spec{Apps: []*gen.App{mk("Ns", "B"), mk("A"), mk("Zed"), other}}, Lab: fmt.Sprintf("payload3-%d", i)})
 	}
 	for _, p := range ps {
 		a := &gen.App{Name: []string{"A"}, Types: []*gen.TypeDecl{{Kind: "type", Name: "T", Fields: []*gen.Field{{Name: "f", T: gen.TypeExpr{Prim: "int"}}}}}, Eps: []*gen.Endpoint{{Kind: "simple", Name: "Ep", Stmts: []*gen.Stmt{{Kind: "ret", Text: p}}}}}
@@ -253,12 +268,233 @@ func censusMeta(out *[]string, kind, key string, attrs map[string]*sysl.Attribut
 	}
 }
 
+// refRetDetail: reference reading of a return payload 'status <: type [attrs]' for the shapes it
+// recognises (ok=false otherwise: the row is then compared by position and kind only).
+// status: ok | error | three digits; type: primitive | [App.]Type | set of / sequence of those;
+// attrs: ~modifier and name="string" / name=[arrays of strings, nested].
+func refRetDetail(m *sysl.Module, app *sysl.Application, payload string) (string, bool) {
+	rest := strings.TrimSpace(payload)
+	attrs := ""
+	if i := strings.Index(rest, "["); i >= 0 {
+		if !strings.HasSuffix(rest, "]") {
+			return "", false
+		}
+		attrs = strings.TrimSpace(rest[i:])
+		rest = strings.TrimSpace(rest[:i])
+	}
+	status, typ := rest, ""
+	if i := strings.Index(rest, "<:"); i >= 0 {
+		status, typ = strings.TrimSpace(rest[:i]), strings.TrimSpace(rest[i+2:])
+	}
+	if !regexp.MustCompile(`^(ok|error|[1-5][0-9][0-9])$`).MatchString(status) {
+		return "", false
+	}
+	var canon func(t string) (string, bool)
+	canon = func(t string) (string, bool) {
+		switch {
+		case t == "":
+			return "none", true
+		case strings.HasPrefix(t, "set of "):
+			in, ok := canon(strings.TrimSpace(t[7:]))
+			return "set of " + in, ok
+		case strings.HasPrefix(t, "sequence of "):
+			in, ok := canon(strings.TrimSpace(t[12:]))
+			return "sequence of " + in, ok
+		}
+		if !regexp.MustCompile(`^[A-Za-z_][A-Za-z0-9_]*(\.[A-Za-z_][A-Za-z0-9_]*)?$`).MatchString(t) {
+			return "", false
+		}
+		for _, prim := range []string{"int", "string", "bool", "float", "decimal", "date", "datetime", "bytes", "any"} {
+			if t == prim {
+				return "prim:" + prim, true
+			}
+		}
+		if i := strings.Index(t, "."); i >= 0 {
+			a, n := t[:i], t[i+1:]
+			if other := m.GetApps()[a]; other != nil && other.GetTypes()[n] != nil && app.GetTypes()[a] == nil {
+				return "ref(" + a + ";" + n + ")", true
+			}
+			return "", false // Type.field or an unknown application: not modelled
+		}
+		if app.GetTypes()[t] == nil {
+			return "", false
+		}
+		return "ref(" + parts(app.GetName().GetPart()) + ";" + t + ")", true
+	}
+	ct, ok := canon(typ)
+	if !ok {
+		return "", false
+	}
+	var mods, nvps []string
+	if attrs != "" {
+		items, ok := splitTopAttr(attrs[1 : len(attrs)-1])
+		if !ok {
+			return "", false
+		}
+		for _, it := range items {
+			it = strings.TrimSpace(it)
+			switch {
+			case strings.HasPrefix(it, "~"):
+				mods = append(mods, it[1:])
+			case strings.Contains(it, "="):
+				kv := strings.SplitN(it, "=", 2)
+				v, ok := refAttrValue(strings.TrimSpace(kv[1]))
+				if !ok {
+					return "", false
+				}
+				nvps = append(nvps, strings.TrimSpace(kv[0])+"="+v)
+			default:
+				return "", false
+			}
+		}
+	}
+	sort.Strings(mods)
+	sort.Strings(nvps)
+	return fmt.Sprintf("status=%s type=%s mods=%v nvp=%v", status, ct, mods, nvps), true
+}
+
+// splitTop splits at commas outside brackets and double quotes.
+func splitTopAttr(s string) ([]string, bool) {
+	var out []string
+	depth, inq, start := 0, false, 0
+	for i := 0; i < len(s); i++ {
+		switch c := s[i]; {
+		case inq && c == '\\':
+			return nil, false
+		case c == '"':
+			inq = !inq
+		case inq:
+		case c == '[':
+			depth++
+		case c == ']':
+			depth--
+		case c == ',' && depth == 0:
+			out = append(out, s[start:i])
+			start = i + 1
+		case c == '\'' || c == '{':
+			return nil, false
+		}
+	}
+	if inq || depth != 0 {
+		return nil, false
+	}
+	return append(out, s[start:]), true
+}
+
+func refAttrValue(v string) (string, bool) {
+	if strings.HasPrefix(v, `"`) && strings.HasSuffix(v, `"`) && len(v) >= 2 && !strings.Contains(v[1:len(v)-1], `"`) {
+		return fmt.Sprintf("%q", v[1:len(v)-1]), true
+	}
+	if strings.HasPrefix(v, "[") && strings.HasSuffix(v, "]") {
+		items, ok := splitTopAttr(v[1 : len(v)-1])
+		if !ok {
+			return "", false
+		}
+		var out []string
+		for _, it := range items {
+			x, ok := refAttrValue(strings.TrimSpace(it))
+			if !ok {
+				return "", false
+			}
+			out = append(out, x)
+		}
+		return "[" + strings.Join(out, " ") + "]", true
+	}
+	return "", false
+}
+
+func relAttrValue(v interface{}) string {
+	switch x := v.(type) {
+	case nil:
+		return `""` // arr.ai has one empty value: '' = {} = none
+
+	case string:
+		return fmt.Sprintf("%q", x)
+	case []interface{}:
+		var out []string
+		for _, e := range x {
+			out = append(out, relAttrValue(e))
+		}
+		return "[" + strings.Join(out, " ") + "]"
+	case []string:
+		var out []string
+		for _, e := range x {
+			out = append(out, fmt.Sprintf("%q", e))
+		}
+		return "[" + strings.Join(out, " ") + "]"
+	case map[string]interface{}:
+		// an array value is carried as the tuple (a: [...]), like sysl.Attribute's 'a' arm
+		if a, ok := x["a"]; ok && len(x) == 1 {
+			return relAttrValue(a)
+		}
+	}
+	return fmt.Sprintf("?%T:%v", v, v)
+}
+
+func relRetDetail(r relmod.StatementReturn) string {
+	t := relTypeCanon(r.Type)
+	var canonPrim func(t interface{}) string
+	canonPrim = func(t interface{}) string {
+		switch x := t.(type) {
+		case relmod.TypePrimitive:
+			return "prim:" + strings.ToLower(x.Primitive)
+		case relmod.TypeSet:
+			return "set of " + canonPrim(x.Set)
+		case relmod.TypeSequence:
+			return "sequence of " + canonPrim(x.Sequence)
+		}
+		return relTypeCanon(t)
+	}
+	t = canonPrim(r.Type)
+	mods := append([]string{}, r.Attr.Modifier...)
+	sort.Strings(mods)
+	var nvps []string
+	for k, v := range r.Attr.Nvp {
+		nvps = append(nvps, k+"="+relAttrValue(v))
+	}
+	sort.Strings(nvps)
+	return fmt.Sprintf("status=%s type=%s mods=%v nvp=%v", r.Status, t, mods, nvps)
+}
+
 func idx(p []int) string {
 	s := make([]string, len(p))
 	for i, x := range p {
 		s[i] = fmt.Sprint(x)
 	}
 	return strings.Join(s, ".")
+}
+
+// dropRetWildcards: return rows whose payload the reference does not read ("retdetail <key> *")
+// are compared by position and kind only.
+func dropRetWildcards(want, got []string) ([]string, []string) {
+	wild := map[string]bool{}
+	var w2, g2 []string
+	for _, l := range want {
+		if strings.HasPrefix(l, "retdetail ") && strings.HasSuffix(l, " *") {
+			wild[strings.TrimSuffix(l, "*")] = true
+			continue
+		}
+		w2 = append(w2, l)
+	}
+	for _, l := range got {
+		drop := false
+		if strings.HasPrefix(l, "retdetail ") {
+			for k := range wild {
+				if strings.HasPrefix(l, k) {
+					drop = true
+				}
+			}
+		}
+		if !drop {
+			g2 = append(g2, l)
+		}
+	}
+	return w2, g2
+}
+
+func dropRetWildcardsGot(want0, got []string) []string {
+	_, g := dropRetWildcards(want0, got)
+	return g
 }
 
 // Census: the rows a lossless relational image must contain.
@@ -344,6 +580,11 @@ func Census(m *sysl.Module) []string {
 						walk(x.Group.GetStmt(), p)
 					case *sysl.Statement_Ret:
 						add("stmt %s %s ret", ek, idx(p))
+						if d, ok := refRetDetail(m, app, x.Ret.GetPayload()); ok {
+							add("retdetail %s %s %s", ek, idx(p), d)
+						} else {
+							add("retdetail %s %s *", ek, idx(p))
+						}
 					case *sysl.Statement_Alt:
 						last := p
 						for ci, c := range x.Alt.GetChoice() {
@@ -453,6 +694,9 @@ func SchemaRows(s *relmod.Schema) []string {
 		add("param %s|%s %s %s %d type=%s opt=%v", parts(p.AppName), p.EpName, p.ParamName, p.ParamLoc, p.ParamIndex, relTypeCanon(p.ParamType), p.ParamOpt)
 	}
 	for _, st := range s.Stmt {
+		if stmtKind(st) == fmt.Sprintf("stmt %s %s ret", parts(st.AppName)+"|"+st.EpName, idx(st.StmtIndex)) {
+			out = append(out, fmt.Sprintf("retdetail %s %s %s", parts(st.AppName)+"|"+st.EpName, idx(st.StmtIndex), relRetDetail(st.StmtRet)))
+		}
 		out = append(out, stmtKind(st))
 	}
 	for _, t := range s.Type {
@@ -642,8 +886,8 @@ func (c17) Run(c core.Case) core.Outcome {
 		o.NonTrivial = core.Hash(cs.Lab)
 		return o
 	}
-	want := Census(m)
-	got := SchemaRows(s1)
+	want0 := Census(m)
+	want, got := dropRetWildcards(want0, SchemaRows(s1))
 	if d := multisetDiff(want, got); d != "" {
 		o.Class = "rows-differ"
 		o.Violation = cs.Lab + ": relational model differs from the census of the module: " + d
@@ -657,7 +901,7 @@ func (c17) Run(c core.Case) core.Outcome {
 		o.Sig = "second-run-fails"
 		return o
 	}
-	if d := multisetDiff(got, SchemaRows(s2)); d != "" {
+	if d := multisetDiff(got, dropRetWildcardsGot(want0, SchemaRows(s2))); d != "" {
 		o.Class = "unstable"
 		o.Violation = cs.Lab + ": two Normalize runs give different relations: " + d
 		o.Sig = "nondeterministic|" + rowClass(d)
